@@ -97,7 +97,33 @@ def main():
     pdl = vlib.run([drive, "jpeglexer", "-cases", dlp], timeout=600)
     if json.loads(pdl.stdout.strip().splitlines()[-1])["mismatches"] == 0:
         raise vlib.Infra("jpeglexer binding demonstration: a changed expectation was not reported")
+    # spec/PngLexer.tla: the chunk loop of pngmeta.extractMetadata at byte granularity; TLC checks the
+    # design invariants and prints every (tokens, cut); pngmeta.Load and autometa.Load replay them
+    rp = vlib.tlc("PngLexer", "PngLexer.cfg", heap="3g", workers=8)
+    if rp.violated:
+        raise vlib.Infra("PngLexer.tla: TLC reports a violation of the model's own invariants (%s)" % rp.violated)
+    ppath = os.path.join(out, "pnglexer.ndjson")
+    with open(ppath, "w") as f:
+        for c in rp.printed:
+            f.write(json.dumps(c) + "\n")
+    pp = vlib.run([drive, "pnglexer", "-cases", ppath], timeout=1800)
+    plines = [json.loads(l) for l in pp.stdout.strip().splitlines()]
+    psum = plines[-1]
+    pmis = [l["mismatch"] for l in plines if "mismatch" in l]
+    if not psum.get("summary") or psum["cases"] != len(rp.printed) or psum["loads"] != 2 * len(rp.printed):
+        raise vlib.Infra("pnglexer replay did not run all cases: %r" % psum)
+    # binding demonstration: expectations with the byte count, the dimensions or the profile changed must be reported
+    pd1 = json.loads(json.dumps(next(c for c in rp.printed if c["res"] == "ok" and c["icc"] == "p1")))
+    pd2, pd3 = dict(pd1, icc="p2"), dict(pd1, w=pd1["h"], h=pd1["w"])
+    pd1["taken"] -= 1
+    pdp = os.path.join(out, "pnglexer_demo.ndjson")
+    open(pdp, "w").write("".join(json.dumps(c) + "\n" for c in (pd1, pd2, pd3)))
+    ppd = vlib.run([drive, "pnglexer", "-cases", pdp], timeout=600)
+    if json.loads(ppd.stdout.strip().splitlines()[-1])["mismatches"] < 4:      # pd1: pngmeta only; pd2, pd3: both loaders
+        raise vlib.Infra("pnglexer binding demonstration: a changed expectation was not reported")
     ev = {"what": "spec/Extras.tla judged %d observations of the real code" % len(lines), "events_by_kind": kinds,
+          "png_lexer": {"tlc_distinct_states": rp.distinct, "inputs_replayed": psum["cases"], "loads_compared": psum["loads"],
+                        "mismatches": psum["mismatches"], "binding_demo": "three changed expectations reported"},
           "jpeg_lexer": {"tlc_distinct_states": rl.distinct, "sessions_replayed": lsum["cases"], "calls_compared": lsum["calls"],
                          "mismatches": lsum["mismatches"], "as_found_design": "violates FillAccepted (expected counterexample)",
                          "binding_demo": "changed expectation reported"},
@@ -113,7 +139,9 @@ def main():
         print("EXTRA-REJECT binarycursor %s" % json.dumps(m)[:400])
     for m in lmis[:10]:
         print("EXTRA-REJECT jpeglexer %s" % json.dumps(m)[:400])
-    if rejects or bmis or lmis:
+    for m in pmis[:10]:
+        print("EXTRA-REJECT pnglexer %s" % json.dumps(m)[:400])
+    if rejects or bmis or lmis or pmis:
         return 1
     print("OK extras events=%d wall=%.1fs" % (len(lines), time.time() - t0))
     return 0
